@@ -55,6 +55,7 @@ type FuncContract struct {
 	Pure      bool
 	NoOverflow bool
 	NilRecv   bool
+	ErrBreaks bool // when the function returns an error its arguments may be left in a broken state (no type invariants)
 	CrashInvs []Clause // must hold in every state a crash inside an effectful call can leave behind
 	Callers   []string // the only functions allowed to call this one (non-test module code)
 	HasCallers bool
@@ -342,6 +343,8 @@ func (C *Contracts) parseFile(pkg, file, src string) {
 					curF.NoOverflow = true
 				case "nilrecv":
 					curF.NilRecv = true
+				case "errbreaks":
+					curF.ErrBreaks = true
 				default:
 					C.errorf("%s: unknown option %q", where, o)
 				}
